@@ -8,6 +8,7 @@ import (
 
 	sdk "github.com/cosmos/cosmos-sdk/types"
 	"github.com/cosmos/cosmos-sdk/x/authz"
+	"github.com/cosmos/cosmos-sdk/x/feegrant"
 	banktypes "github.com/cosmos/cosmos-sdk/x/bank/types"
 	govv1 "github.com/cosmos/cosmos-sdk/x/gov/types/v1"
 	stakingtypes "github.com/cosmos/cosmos-sdk/x/staking/types"
@@ -49,6 +50,7 @@ type BuiltTx struct {
 	BuildErr error
 	Signers  []Addr
 	Payer    Addr
+	Granter  Addr // fee granter, if any
 	Fee      sdk.Coins
 	Expect   Expect
 	// results
@@ -547,6 +549,17 @@ func (w *World) buildOp(op *Op) *BuiltOp {
 			b.Expect = reject("parameter update not issued by the governance authority", "C13")
 		}
 		b.Desc = fmt.Sprintf("%s %+v", op.Kind, op.P)
+	case FeeGrantOp:
+		setParties(w.acct(op.Peer + 1))
+		b.Module = "feegrant"
+		grantee := w.acct(op.Peer)
+		named := b.Named
+		g, err := feegrant.NewMsgGrantAllowance(&feegrant.BasicAllowance{}, named.Bytes, grantee.Bytes)
+		if err == nil {
+			b.Msg = g
+		}
+		b.Desc = fmt.Sprintf("feegrant %s->%s", named.Name, grantee.Name)
+		b.Apply = func(w *World) { w.FeeGrants[named.Key()+"|"+grantee.Key()] = true }
 	case AuthzGrant:
 		setParties(w.acct(op.Peer + 1))
 		b.Module = "authz"
